@@ -113,6 +113,9 @@ type Client struct {
 	// forcefully killed.
 	processKilled bool
 
+	// launched is set once a runner has been asked to start the plugin.
+	launched bool
+
 	unixSocketCfg UnixSocketConfig
 
 	grpcMuxerOnce sync.Once
@@ -588,6 +591,12 @@ func (c *Client) Start() (addr net.Addr, err error) {
 		return c.address, nil
 	}
 
+	// The plugin is launched at most once: if an earlier Start ran the plugin
+	// and then failed, do not run it a second time.
+	if c.launched {
+		return nil, errors.New("plugin was already launched once and failed to start; it cannot be started again")
+	}
+
 	// If one of cmd or reattach isn't set, then it is an error. We wrap
 	// this in a {} for scoping reasons, and hopeful that the escape
 	// analysis will pop the stack here.
@@ -733,6 +742,7 @@ func (c *Client) Start() (addr net.Addr, err error) {
 	}
 
 	c.runner = runner
+	c.launched = true
 	startCtx, startCtxCancel := context.WithTimeout(context.Background(), c.config.StartTimeout)
 	defer startCtxCancel()
 	err = runner.Start(startCtx)
